@@ -104,16 +104,23 @@ def ws2dwcvp(y, nodata, p, llas, robust, out, lopt):
                 r_sel = r_arr[w_temp != 0]
                 mad = np.median(np.abs(r_sel - np.median(r_sel)))
 
-                # mad == 0: more than half of the residuals coincide (e.g. an exact
-                # fit of a constant or linear series); there is no scale to
+                # mad at rounding-noise level (relative to the spread of the data):
+                # more than half of the residuals coincide (e.g. an exact fit of a
+                # constant or linear series, or flat stretches); there is no scale to
                 # standardise with, keep the current weights
-                if mad > 0:
+                y_valid = y[w != 0]
+                mad_min = 1e-9 * (1.0 + (np.max(y_valid) - np.min(y_valid)))
+                if mad > mad_min:
                     u_arr = r_arr / (1.4826 * mad * np.sqrt(1 - gamma.sum() / n))
 
-                    r_weights = (1 - (u_arr / 4.685) ** 2) ** 2
-                    r_weights[(np.abs(u_arr / 4.685) > 1)] = 0
+                    r_new = (1 - (u_arr / 4.685) ** 2) ** 2
+                    r_new[(np.abs(u_arr / 4.685) > 1)] = 0
 
-                    r_weights[r_arr > 0] = 1
+                    r_new[r_arr > 0] = 1
+
+                    # the solver needs at least two cells with weight
+                    if np.sum((w * r_new) > 0) > 1:
+                        r_weights = r_new
 
             robust_weights = w * r_weights
 
